@@ -483,6 +483,13 @@ func GenBuildOpts(rnd *verifutil.Rand, ents []Ent) BuildOpts {
 			okParents := true
 			// ... and it moves a hardlink's target (chain) first, with the same demand on its parents
 			cur, curE := c, e
+			for i := len(ents) - 1; i >= 0; i-- {
+				if Clean(ents[i].Name) == c {
+					curE = ents[i] // the last definition is the one that counts
+					break
+				}
+			}
+			selfE := curE
 			for hop := 0; hop <= len(ents) && okParents; hop++ {
 				for d := path.Dir(cur); d != "." && d != "/" && d != ""; d = path.Dir(d) {
 					if !explicit[d] {
@@ -508,7 +515,7 @@ func GenBuildOpts(rnd *verifutil.Rand, ents []Ent) BuildOpts {
 				continue
 			}
 			seen[c] = true
-			o.Prioritized = append(o.Prioritized, rawName(rnd, c, e.Type == tar.TypeDir))
+			o.Prioritized = append(o.Prioritized, rawName(rnd, c, selfE.Type == tar.TypeDir))
 		}
 		// shuffle
 		for i := len(o.Prioritized) - 1; i > 0; i-- {
